@@ -164,6 +164,17 @@ func (m *escrowMonitor) after2(c *Chain, br *BlockResult, outs []TxOutcome, tags
 		switch o.Tx.Op.K {
 		case OpWithdrawTip, OpFeeRefund, OpClaimReward:
 			if strings.Contains(o.Res.Log, "insufficient funds") {
+				// consequence of known finding F-C04-1: the dispute account is short by the loya lost to
+				// per-selector truncation of fees paid from stake, so the last refund/claim of such a dispute fails
+				var have, need int64
+				if i := strings.Index(o.Res.Log, "spendable balance "); i >= 0 {
+					fmt.Sscanf(o.Res.Log[i:], "spendable balance %dloya is smaller than %dloya", &have, &need)
+				}
+				if o.Tx.Op.K != OpWithdrawTip && m.fromBondPayments > 0 && need > have && need-have <= 100*m.fromBondPayments &&
+					pbt.IsKnown("C04", "C04/dispute-account-underfunded/fee-from-stake-rounding") {
+					m.knownRounding++
+					continue
+				}
 				return pbt.Violf("C04/claim-failed-insufficient-funds/"+o.Tx.Op.K, "block %d: %s failed for lack of funds: %s", br.Height, o.Tx.Op.K, o.Res.Log)
 			}
 		}
